@@ -285,6 +285,7 @@ func GenSession(rd *core.Rand, dialect string, thorough bool) (*Script, *sessMet
 	}
 	sc.Enc = core.Pick(rd, []string{"mixed1", "mixed1", "mixed2", "mixed2", "none"})
 	sc.Keys = core.Pick(rd, []string{"full", "full", "full", "none"})
+	sc.DeprecateEOF = dialect == "my" && rd.Chance(30)
 	d := dialect
 	nsrc := 2 + rd.Intn(4)
 	for s := 0; s < nsrc; s++ {
